@@ -102,8 +102,14 @@ class Builder:
         call.__name__ = cb.name
         if getattr(cb, 'is_async', False):
 
-            async def acall(*args, **kw):
-                return call(*args, **kw)
+            def acall(*args, **kw):
+                # like the symbolic execution: the effect happens at the call, the awaitable is already complete
+                r = call(*args, **kw)
+
+                async def done():
+                    return r
+
+                return done()
 
             return acall
         return call
@@ -352,11 +358,14 @@ def run_native(top, registry, state, extra_check=None):
     # (the package attribute the code under contract reaches it through, e.g. asyncio.wait_for, is patched)
     for f, cb in ((getattr(top, 'extra', {}) or {}).get('stubs') or {}).items():
         try:
-            pkg = sys.modules.get((getattr(f, '__module__', '') or '').split('.')[0])
+            base = (getattr(f, '__module__', '') or '').split('.')[0]
             fname = getattr(f, '__name__', None)
-            if pkg is not None and fname and getattr(pkg, fname, None) is f:
-                patches.append((pkg, fname, f))
-                setattr(pkg, fname, b.callback(cb))
+            stub = b.callback(cb)
+            for pname in {base, base.lstrip('_')}:  # C accelerators live in _asyncio, the code says asyncio.X
+                pkg = sys.modules.get(pname)
+                if pkg is not None and fname and getattr(pkg, fname, None) is f:
+                    patches.append((pkg, fname, f))
+                    setattr(pkg, fname, stub)
         except Exception:  # noqa: BLE001
             pass
     import signal
